@@ -43,6 +43,7 @@ type C13Plan struct {
 	Sdp     string          `json:"sdp,omitempty"` // mutated SDP for ANNOUNCE (empty: a valid one)
 	Items   []C13Item       `json:"items"`
 	ByUnits int             `json:"by_units"`
+	GbStorm int             `json:"gb_storm,omitempty"` // GB28181: rounds of (later packet buffered, earlier packet malformed) before the items
 	V       int             `json:"v,omitempty"` // generator version of the hostile-shape tables (replays of older plans keep their shapes)
 }
 
@@ -453,6 +454,9 @@ func genC13Plan(r *sim.Rng, tier string) C13Plan {
 	p.Sched.MaxSteps = 200000
 	p.Surface = c13Surfaces[r.Intn(len(c13Surfaces))]
 	p.V = 2
+	if (p.Surface == "gb_udp" || p.Surface == "gb_tcp") && r.Bool(0.25) {
+		p.GbStorm = []int{40, 1030, 1100, 2100}[r.Intn(4)]
+	}
 	p.Tcp = r.Bool(0.5)
 	p.Video = []string{"avc", "avc", "hevc", ""}[r.Intn(4)]
 	p.Audio = []string{"aac", "aac", "pcma", "opus", ""}[r.Intn(5)]
@@ -835,6 +839,33 @@ func runC13(k *sim.Kernel, p C13Plan) {
 			k.Settle()
 		}
 		ts := uint32(r.Intn(1 << 30))
+		// many rounds of "a later packet waits in the reorder list while the packet before it fails to parse": each
+		// round resets the unpacker with something still buffered
+		for i := 0; i < p.GbStorm; i++ {
+			if tcp && (peer.conn == nil || peer.closed) {
+				break
+			}
+			seq += 2
+			ts += 3600
+			later := rtpc.Packet{PT: 96, Seq: seq, Ts: ts, Ssrc: 0x33330000, Payload: []byte{0, 0, 1, 0xba, 0x44, 0, 4, 0, 4, 1, 0, 0, 3, 0xf8}}
+			bad := rtpc.Packet{PT: 96, Seq: seq - 1, Ts: ts, Ssrc: 0x33330000, Payload: []byte{0, 0, 1, byte(0x10 + i%7), 1, 2, 3, 4}}
+			for _, q := range []rtpc.Packet{later, bad} {
+				b := q.Marshal()
+				if tcp {
+					peer.conn.Send(append([]byte{byte(len(b) >> 8), byte(len(b))}, b...))
+				} else {
+					k.UDPSend(net.UDPAddr{IP: net.IPv4(10, 0, 30, 1), Port: 40000}, port, b)
+				}
+			}
+			if i%16 == 15 {
+				k.Settle()
+			}
+		}
+		if p.GbStorm > 0 {
+			k.Settle()
+			feed(1)
+			k.Probe("c13_gb_reset_storm")
+		}
 		for _, it := range p.Items {
 			seq++
 			ts += 3600
